@@ -173,6 +173,17 @@ def run(out: Outcome) -> None:
         else:
             xs = gen.float_stress_stream(rng, L)
         check(out, p, xs, runners)
+    # runs that continue after a detection with a large min_num_instances: right after a cut the window is shorter than min_num_instances,
+    # so no check is due although the update counter is large
+    for i in range(40 if thorough else 12):
+        p = {"clock": rng.choice([1, 2]), "delta": rng.choice([0.3, 0.8, 0.05]), "m": rng.choice([2, 3, 5]), "min_window_size": rng.choice([1, 2]),
+             "min_num_instances": rng.choice([15, 25, 40, 100])}
+        xs, level = [], 0.0
+        for seg in range(rng.randint(3, 6)):
+            level = rng.choice([0.0, 5.0, 20.0, 50.0]) if seg else 1.0
+            xs += [abs(rng.gauss(level, 0.2)) for _ in range(rng.randint(p["min_num_instances"] + 5, 3 * p["min_num_instances"]))]
+            xs += [abs(rng.gauss(level + rng.choice([3.0, 8.0]), 0.1)) for _ in range(rng.randint(2, 6))]     # a small step inside the short post-cut window
+        check(out, p, xs, runners)
     if "KF-C05-1" in out.findings:   # witness of the recorded finding
         import json
         from common import VERIF
